@@ -167,6 +167,23 @@ NESTED_OPS = {
         ("swap-rows", ["mem_swap(xss[i], xss[j])"]),
         ("swap-elems-across-rows", ["mem_swap(xss[i][j], xss[j][i])"]),
         ("lend-two-rows", ["both2(xss[i], xss[j])"]),
+        # a comprehension nested in the element expression of another one (each needs its own slot counter)
+        ("nested-comprehension", ["yss = array(array(10 * a + b + i for b in range(3)) for a in range(2))",
+                                  'result("y02", yss[0][2])', 'result("y10", yss[1][0])', 'result("y12", yss[1][2])']),
+        ("nested-comprehension-reading-rows", ["zss = array(array(v + 100 * a for v in array(1, 2, 3)) for a in range(3))",
+                                               'result("z01", zss[0][1])', 'result("z22", zss[2][2])']),
+    ],
+    # arrays of non-copyable AGGREGATES with a classical part: rs: array[R, 2] (R = struct of an int array and an int),
+    # ts: array[tuple[array[int, 2], int], 2]
+    "agg": [
+        ("read-field-elem", ['result("r", rs[i].inner[j])']),
+        ("read-classical-field", ['result("t", rs[i].tag)']),
+        ("copy-classical-field", ["tg = rs[i].tag", 'result("t", tg)']),
+        ("write-field-elem", ["rs[i].inner[j] = 90"]),
+        ("lend-field", ["bump2(rs[i].inner)"]),
+        ("read-classical-component", ['result("t", ts[i][1])']),
+        ("read-component-elem", ['result("r", ts[i][0][j])']),
+        ("lend-component", ["bump2(ts[i][0])"]),
     ],
     # 3 levels: xsss: array[array[array[int, 2], 2], 2]
     "n3": [
@@ -185,6 +202,11 @@ NESTED_HDR = '''
 def both2(a: array[int, 2], b: array[int, 2]) -> None:
     a[0] = a[0] + 100
     b[1] = b[1] + 200
+
+@guppy.struct
+class R:
+    inner: array[int, 2]
+    tag: int
 '''
 
 
@@ -192,6 +214,10 @@ def nested_src(level, seq):
     if level == "n2":
         body = ["xss = array(array(1, 2), array(3, 4))"]
         fin = [f'result("f{a}{b}", xss[{a}][{b}])' for a in range(2) for b in range(2)]
+    elif level == "agg":
+        body = ["rs = array(R(array(1, 2), 5), R(array(3, 4), 6))", "ts = array((array(11, 12), 15), (array(13, 14), 16))"]
+        fin = ([f'result("f{a}{b}", rs[{a}].inner[{b}])' for a in range(2) for b in range(2)] +
+               [f'result("g{a}{b}", ts[{a}][0][{b}])' for a in range(2) for b in range(2)])
     else:
         body = ["xsss = array(array(array(1, 2), array(3, 4)), array(array(5, 6), array(7, 8)))"]
         fin = [f'result("f{a}{b}{c}", xsss[{a}][{b}][{c}])' for a in range(2) for b in range(2) for c in range(2)]
@@ -297,6 +323,11 @@ def eval_program(item):
             if st == "panic":
                 res["status"] = "rejected-static-ok"
                 return res
+        if ty.startswith("agg") and o.title in ("Subscript consumed", "Subscript moved"):
+            # a classical part of a non-copyable array element cannot be read without lending the whole element:
+            # the checker refuses that (safe); the statement only speaks about programs that run
+            res["status"] = "rejected-move-out-of-subscript"
+            return res
         res["dis"] = {"cls": "valid-program-rejected", "detail": o.title}
         return res
     res["status"] = "accepted"
